@@ -198,7 +198,9 @@ static JanetTimestamp ts_delta(JanetTimestamp ts, double delta) {
     if (isinf(delta)) {
         return delta < 0 ? ts : INT64_MAX;
     }
-    ts += (int64_t)round(delta * 1000);
+    /* Timestamps are truncated to whole milliseconds, so round the interval up and add one
+     * tick: a timeout must never fire before the requested time has really elapsed. */
+    if (delta > 0) ts += (int64_t)ceil(delta * 1000) + 1;
     return ts;
 }
 
